@@ -1,4 +1,4 @@
-//! unit: {"container": "impl M128", "file": "src/ecm128.rs", "hoist": true, "kind": "fn", "name": "add", "props": ["C07", "C03"]}
+//! unit: {"container": "impl M128", "file": "src/ecm128.rs", "hoist": true, "kind": "fn", "name": "add", "props": ["C07", "C03", "C15"]}
 //! ---- pinned ----
     fn add(n: u128, x: M128, y: M128) -> M128 {
         let (x, y) = (x.0, y.0);
